@@ -21,10 +21,49 @@ int main(int argc, char** argv) {
         t.Reset();
         u16 mask = 0;        // CPU-side mask of the DSP->CPU semaphore (host MaskSemaphore)
         u64 handler_calls = 0;
-        unsigned style = (unsigned)g.below(4); // what the re-entrant handler does
+        unsigned style = (unsigned)g.below(6); // what the re-entrant handler does
         Rng hg(g.next());
+        std::string hist;
+        bool bad = false;
+        int depth = 0;
+        // Every call that can raise the flag goes through these wrappers, at top level and from inside the handler: the
+        // flag rises across the call iff it was 0 before and the call's own effect makes (semaphore & ~mask) non-zero;
+        // then the handler must have been entered (at least once more) before the call returned.
+        auto expr = [&] { return (t.GetSemaphore() & ~mask) != 0; };
+        auto demand = [&](const char* what, bool before, bool after_pred, u64 calls_before) {
+            ctx.count("edge_checks");
+            if (!before && after_pred) {
+                ctx.count(depth ? "rises_inside_handler" : "rises_at_top_level");
+                if (handler_calls == calls_before && !bad) {
+                    bad = true;
+                    ctx.violation(fmt("reentrant:sem-irq-missed:%s:%s", what, depth ? "inside-handler" : "top-level"),
+                                  fmt("%s raised the flag (semaphore & ~mask became non-zero) %s but the host handler was not invoked", what,
+                                      depth ? "from inside the running handler" : "at top level"),
+                                  c, JObj().str("history", hist).num("handler_style", style).num("handler_depth", depth).done());
+                }
+            }
+        };
+        auto api_mask = [&](u16 m) {
+            bool before = expr();
+            bool pred = (t.GetSemaphore() & ~m) != 0;
+            u64 c0 = handler_calls;
+            mask = m;
+            t.MaskSemaphore(m);
+            demand("MaskSemaphore", before, pred, c0);
+        };
+        auto dsp_set = [&](u16 v) {
+            bool before = expr();
+            bool pred = ((t.GetSemaphore() | v) & ~mask) != 0;
+            u64 c0 = handler_calls;
+            t.MMIOWrite(0x0CC, v);
+            demand("dsp-set", before, pred, c0);
+        };
         t.SetSemaphoreHandler([&] {
             ++handler_calls;
+            if (depth > 20)
+                return;
+            ++depth;
+            ctx.maxv("max_handler_nesting", (u64)depth);
             u16 s = t.GetSemaphore();
             switch (style) {
             case 0: t.ClearSemaphore(s); break;                              // acknowledge everything
@@ -32,15 +71,26 @@ int main(int argc, char** argv) {
             case 2: break;                                                   // only look
             case 3:                                                          // acknowledge, sometimes re-mask
                 t.ClearSemaphore(s);
-                if (hg.chance(1, 4)) {
-                    mask = (u16)hg.bits(16);
-                    t.MaskSemaphore(mask);
-                }
+                if (hg.chance(1, 4))
+                    api_mask((u16)hg.bits(16));
+                break;
+            case 4: { // "mask everything, service one bit, unmask": the remaining bits raise the flag again from inside
+                api_mask(0xFFFF);
+                u16 one = 0;
+                for (unsigned b = 0; b < 16 && !one; ++b)
+                    if (s & (1u << b))
+                        one = (u16)(1u << b);
+                t.ClearSemaphore(one);
+                api_mask(0);
                 break;
             }
+            case 5: // acknowledge what was visible, then unmask: bits that were set while masked raise the flag from inside
+                t.ClearSemaphore((u16)(s & ~mask));
+                api_mask(0);
+                break;
+            }
+            --depth;
         });
-        std::string hist;
-        bool bad = false;
         bool prev_flag = false;
         for (unsigned op = 0; op < 200 && !bad; ++op) {
             unsigned k = (unsigned)g.below(10);
@@ -50,18 +100,16 @@ int main(int argc, char** argv) {
             RunResult rr = Classify([&] {
                 if (k < 5) {
                     name = "dsp-set";
-                    t.MMIOWrite(0x0CC, v);
+                    dsp_set(v);
                 } else if (k < 7) {
                     name = "host-mask";
-                    mask = v;
-                    t.MaskSemaphore(v);
+                    api_mask(v);
                 } else if (k < 9) {
                     name = "host-ack";
                     t.ClearSemaphore(v);
                 } else {
                     name = "host-unmask";
-                    mask = 0;
-                    t.MaskSemaphore(0);
+                    api_mask(0);
                 }
             });
             if (hist.size() < 1200)
